@@ -36,6 +36,7 @@ struct Plan {
     int port = 0;            // UDP port of the tunnel (0 = the programs' default 17220)
     bool env_on = false;
     double outfault = 0;
+    bool tty = false;
     bool longnames = false;  // interfaces are addressed by their 15-character names
     int stackfill = 0xA5;  // byte the task stacks are pre-filled with (what a never-written local reads)
     double read0 = 0;
